@@ -191,10 +191,13 @@ class Ctx:
             for p, pin, pout in procs:
                 p.wait(); fo.write(open(pout).read()); os.unlink(pin); os.unlink(pout)
 
-    def correspond(self, name, cases, impl, model, tags=None):
-        """diff implementation lines against model lines; every disagreement is a broken correspondence"""
+    def correspond(self, name, cases, impl, model, tags=None, project=None):
+        """diff implementation lines against model lines; every disagreement is a broken correspondence.
+        `project` restricts both lines to the observables the property is about (the rest is compared by the checks of other properties)"""
         self.run_model(cases, model)
         li = open(impl).read().split('\n'); lm = open(model).read().split('\n')
+        if project:
+            li = [project(x) if x else x for x in li]; lm = [project(x) if (x and x != 'oof') else x for x in lm]
         lc = open(cases).read().split('\n')
         lt = open(tags).read().split('\n') if tags and os.path.exists(tags) else None
         if li and li[-1] == '': li.pop()
